@@ -138,8 +138,20 @@ static ssize_t comp_end_dchunk(zckCtx *zck, bool use_dict, size_t fd_size) {
     VALIDATE_READ_INT(zck);
 
     ssize_t rb = zck->comp.end_dchunk(zck, &(zck->comp), use_dict, fd_size);
-    if(validate_current_chunk(zck) < 1)
+    if(!rb)
         return -1;
+    if(validate_current_chunk(zck) < 1) {
+        /* Never hand out data decompressed from a chunk that failed
+         * verification, not even on a later call */
+        if(zck->comp.dc_data) {
+            free(zck->comp.dc_data);
+            zck->comp.dc_data = NULL;
+            zck->comp.dc_data_size = 0;
+            zck->comp.dc_data_loc = 0;
+        }
+        set_fatal_error(zck, "Chunk failed checksum verification");
+        return -1;
+    }
     zck->comp.data_loc = 0;
     zck->comp.data_idx = zck->comp.data_idx->next;
     if(!hash_init(zck, &(zck->check_chunk_hash), &(zck->chunk_hash_type)))
@@ -502,7 +514,7 @@ ssize_t comp_read(zckCtx *zck, char *dst, size_t dst_size, bool use_dict) {
             }
         }
         if(zck->comp.data_loc == zck->comp.data_idx->comp_length) {
-            if(!comp_end_dchunk(zck, use_dict, zck->comp.data_idx->length)) {
+            if(comp_end_dchunk(zck, use_dict, zck->comp.data_idx->length) < 0) {
                 free(src);
                 return -1;
             }
